@@ -726,9 +726,9 @@ func (e *x05Env) diff(q x05Q, want x05R, o x05Obs) []string {
 		}
 		// ... and plain bytes / blocks are exactly the stored data
 		id := x05ContentID(q.Kind, q.Ver)
-		if strings.HasPrefix(want.Rep, "bytes:") || strings.HasPrefix(want.Rep, "codec:") || want.Rep == "rec" {
+		if strings.HasPrefix(want.Rep, "bytes:") || strings.HasPrefix(want.Rep, "codec:") || strings.HasPrefix(want.Rep, "rec:") {
 			exp := e.data[id]
-			if want.Rep == "rec" {
+			if strings.HasPrefix(want.Rep, "rec:") {
 				exp = e.data["rec"]
 			}
 			if exp != nil && !bytes.Equal(o.Body, exp) {
@@ -751,6 +751,9 @@ func (e *x05Env) diff(q x05Q, want x05R, o x05Obs) []string {
 // learn the validator / Last-Modified a client holds: unconditional GET of the same request
 func (e *x05Env) learn(q x05Q, salt int) (etag, lm string) {
 	o := e.send(q, "GET", "", "", salt)
+	if o.St != http.StatusOK { // a client stores validators of successful responses only
+		return "", ""
+	}
 	return o.H.Get("Etag"), o.H.Get("Last-Modified")
 }
 
@@ -962,6 +965,327 @@ func x05ReplayHist(t *testing.T) {
 	vEmit(M{"summary": true, "n": len(lines), "fails": fails})
 }
 
+
+// ---------------------------------------------------------------- T: recorded session
+
+func x05FmtOf(q x05Q) string { // only used to steer the random walk (never for expectations)
+	if _, ok := x05AcceptOf[q.Fmtq]; ok && q.Fmtq != "any" && q.Fmtq != "vndx" {
+		return q.Fmtq
+	}
+	if _, ok := x05AcceptOf[q.Acc]; ok && q.Acc != "any" {
+		return q.Acc
+	}
+	return ""
+}
+
+func (e *x05Env) idOfCid(s string) string {
+	for id, c := range e.cids {
+		if c.String() == s {
+			return id
+		}
+	}
+	return "?"
+}
+
+var x05CarTagRe = regexp.MustCompile(`^(.+)\.car\.([0-9a-v]+)$`)
+
+// a real entity-tag in the spec's terms (CAR: x = the opaque suffix)
+func (e *x05Env) parseEtag(h string, present bool) x05Et {
+	if !present {
+		return x05Et{K: "none"}
+	}
+	et := x05Et{K: "other"}
+	s := h
+	if strings.HasPrefix(s, "W/") {
+		et.W, s = true, s[2:]
+	}
+	if len(s) < 2 || s[0] != '"' || s[len(s)-1] != '"' {
+		if !et.W && x05BareRe.MatchString(s) {
+			et.K = "recbare"
+		}
+		return et
+	}
+	s = s[1 : len(s)-1]
+	dirP, dagP := "DirIndex-"+assets.AssetHash+"_CID-", "DagIndex-"+assets.AssetHash+"_CID-"
+	switch {
+	case strings.HasPrefix(s, dirP):
+		et.K, et.C = "dir", e.idOfCid(s[len(dirP):])
+	case strings.HasPrefix(s, dagP):
+		et.K, et.C = "dag", e.idOfCid(s[len(dagP):])
+	case x05CarTagRe.MatchString(s):
+		m := x05CarTagRe.FindStringSubmatch(s)
+		et.K, et.C, et.F, et.X = "car", e.idOfCid(m[1]), "car", m[2]
+	case e.idOfCid(s) != "?":
+		et.K, et.C = "cid", e.idOfCid(s)
+	case strings.Contains(s, ".") && e.idOfCid(s[:strings.Index(s, ".")]) != "?":
+		et.K, et.C, et.F = "fmt", e.idOfCid(s[:strings.Index(s, ".")]), s[strings.Index(s, ".")+1:]
+	case x05BareRe.MatchString(s):
+		et.K = "rec"
+	}
+	if et.K == "other" || et.C == "?" {
+		return x05Et{K: "other", W: et.W}
+	}
+	return et
+}
+
+func x05CCToken(v string, present bool, name string) string {
+	if !present {
+		return "none"
+	}
+	for _, t := range []string{"imm", "ttl", "dirweek", "dirttl"} {
+		if x05CC(t, name) == v {
+			return t
+		}
+	}
+	return "other"
+}
+
+func x05LmToken(lm string, o x05Obs) string {
+	switch lm {
+	case "":
+		return "none"
+	case x05Mtime.UTC().Format(http.TimeFormat):
+		return "mtime"
+	case x05NsLm.UTC().Format(http.TimeFormat):
+		return "nslm"
+	}
+	if tm, err := http.ParseTime(lm); err == nil && !tm.Before(o.T0.Add(-2*time.Second)) && !tm.After(o.T1.Add(2*time.Second)) {
+		return "now"
+	}
+	return "other"
+}
+
+func x05CtTokens(ct, kind string) []string {
+	res := []string{}
+	for t, v := range x05CT {
+		if v == ct {
+			res = append(res, t)
+		}
+	}
+	if ct != "" && x05Sniff[kind] == ct {
+		res = append(res, "sniff")
+	}
+	if strings.HasPrefix(ct, "application/vnd.ipld.car; version=1; order=") {
+		var o, d string
+		if n, _ := fmt.Sscanf(strings.ReplaceAll(ct, ";", " "), "application/vnd.ipld.car version=1 order=%s dups=%s", &o, &d); n == 2 {
+			res = append(res, "car:"+o+":"+d)
+		}
+	}
+	sort.Strings(res)
+	return res
+}
+
+func (e *x05Env) cdTokens(q x05Q, h http.Header) (string, string) {
+	if len(h["Content-Disposition"]) == 0 {
+		return "none", ""
+	}
+	cd := h.Get("Content-Disposition")
+	typ, rest, _ := strings.Cut(cd, "; ")
+	term := e.cids[x05ContentID(q.Kind, q.Ver)].String()
+	root := term
+	if q.Addr == "sub" {
+		root = e.cids[fmt.Sprintf("P.%d", q.Ver)].String()
+	}
+	carName := root
+	if q.Addr == "sub" {
+		carName += "_" + q.Kind
+	}
+	fn := q.Fname
+	if fn == "e.png" {
+		fn = x05UniName
+	}
+	cands := map[string]string{"cid.bin": term + ".bin", "cid.tar": term + ".tar", "cid.json": term + ".json",
+		"cid.cbor": term + ".cbor", "car": carName + ".car", "rec": e.names["key"] + ".ipns-record"}
+	if fn != "" {
+		cands["fname"] = fn
+	}
+	for tok, name := range cands {
+		if x05Disposition(typ, name) == typ+"; "+rest {
+			return typ, tok
+		}
+	}
+	return typ, "other"
+}
+
+func (e *x05Env) project(q x05Q, o x05Obs) M {
+	etag, hasEtag := o.H.Get("Etag"), len(o.H["Etag"]) > 0
+	cc, hasCC := o.H.Get("Cache-Control"), len(o.H["Cache-Control"]) > 0
+	roots := []string{}
+	if v := o.H.Get("X-Ipfs-Roots"); v != "" {
+		for _, c := range strings.Split(v, ",") {
+			roots = append(roots, e.idOfCid(c))
+		}
+	}
+	cdt, cdn := e.cdTokens(q, o.H)
+	cl := "none"
+	if len(o.H["Content-Location"]) > 0 {
+		cl = "bad"
+		if u, err := url.Parse(o.H.Get("Content-Location")); err == nil && u.Path == e.urlPath(q) && u.Query().Get("format") == x05FmtOf(q) {
+			cl = "ok"
+		}
+	}
+	body := "err"
+	switch {
+	case o.St == 304:
+		body = map[bool]string{true: "empty", false: "full"}[len(o.Body) == 0]
+	case o.St == 200 && q.Meth == "HEAD":
+		body = "na"
+	case o.St == 200:
+		body = map[bool]string{true: "empty", false: "full"}[len(o.Body) == 0]
+	}
+	return M{"st": o.St, "clean": !hasEtag && !hasCC, "et": e.parseEtag(etag, hasEtag), "cc": x05CCToken(cc, hasCC, q.Name),
+		"lm": x05LmToken(o.H.Get("Last-Modified"), o), "roots": roots, "cts": x05CtTokens(o.H.Get("Content-Type"), q.Kind),
+		"cdt": cdt, "cdn": cdn, "cl": cl, "body": body, "xp": o.H.Get("X-Ipfs-Path") == e.urlPath(q),
+		"etag": etag}
+}
+
+func x05Pick(r interface{ Intn(int) int }, xs ...string) string { return xs[r.Intn(len(xs))] }
+
+func x05Record(t *testing.T) {
+	e := x05NewEnv(t)
+	r := vRand()
+	n := 700
+	if !vQuick() {
+		n = 6000
+	}
+	store := map[string]map[string]bool{} // URL (with query) -> validators the client stored
+	for it := 0; it < n; it++ {
+		if r.Intn(25) == 0 {
+			name := x05Pick(r, "ttl", "nottl", "lm")
+			e.publish(name, 3-e.pub[name])
+			vEmit(M{"ev": "Publish", "name": name, "ver": e.pub[name]})
+			continue
+		}
+		q := x05Q{Fam: "T", Conv: r.Intn(4) != 0, Deser: r.Intn(6) != 0, Meth: "GET", Ver: 1 + r.Intn(2), Kind: x05Kinds[r.Intn(len(x05Kinds))]}
+		if r.Intn(4) == 0 {
+			q.Meth = "HEAD"
+		}
+		switch r.Intn(5) {
+		case 0:
+			q.Ns, q.Addr = "ipfs", "direct"
+		case 1:
+			q.Ns, q.Addr = "ipfs", "sub"
+		default:
+			q.Ns, q.Addr, q.Name = "ipns", "sub", x05Pick(r, "ttl", "nottl", "lm")
+			q.Ver = e.pub[q.Name]
+		}
+		if r.Intn(10) < 4 {
+			q.Fmtq = x05Pick(r, "raw", "car", "tar", "json", "cbor", "dag-json", "dag-cbor", "bogus")
+		}
+		if r.Intn(2) == 0 {
+			q.Acc = x05Pick(r, "raw", "car", "tar", "json", "cbor", "dag-json", "dag-cbor", "html", "html", "html", "any", "any", "vndx")
+		}
+		if r.Intn(25) == 0 { // signed record requests
+			q.Ns, q.Name, q.Kind, q.Ver = "ipns", x05Pick(r, "key", "key", "ttl"), "file", 1
+			q.Addr = x05Pick(r, "direct", "direct", "direct", "sub")
+			if q.Name != "key" {
+				q.Ver = e.pub[q.Name]
+			}
+			if r.Intn(2) == 0 {
+				q.Fmtq, q.Acc = "ipns-record", x05Pick(r, "", "any", "raw")
+			} else {
+				q.Fmtq, q.Acc = "", "ipns-record"
+			}
+		} else if q.Ns == "ipns" && q.Addr == "direct" {
+			q.Addr = "sub"
+		}
+		f := x05FmtOf(q)
+		if q.Acc == "car" && r.Intn(2) == 0 {
+			q.Accp = x05Pick(r, "ounk", "dy", "odfsdn", "v2")
+		}
+		if f == "car" {
+			if r.Intn(3) == 0 {
+				q.Scope = x05Pick(r, "all", "entity", "block", "entity", "bogus")
+			}
+			if r.Intn(3) == 0 {
+				q.Bytes = x05Pick(r, "0:*", "0:1", "1:*", "bogus")
+			}
+			if r.Intn(3) == 0 {
+				q.Order = x05Pick(r, "dfs", "unk", "unk", "bogus")
+			}
+			if r.Intn(3) == 0 {
+				q.Dups = x05Pick(r, "y", "n", "y", "bogus")
+			}
+			if r.Intn(12) == 0 {
+				q.Cver = x05Pick(r, "1", "2")
+			}
+		}
+		if r.Intn(7) == 0 {
+			q.Fname = x05Pick(r, "x.txt", "e.png")
+		}
+		q.Dl = r.Intn(7) == 0
+		isDir := q.Kind == "diri" || q.Kind == "dirn"
+		isDag := q.Kind == "dcbor" || q.Kind == "djson"
+		q.Slash = f != "car" && f != "ipns-record" && (((isDir || isDag) && r.Intn(6) != 0) || r.Intn(12) == 0)
+		if q.Ns == "ipns" && q.Addr == "direct" {
+			q.Slash = false
+		}
+
+		// conditional headers
+		u := e.urlPath(q)
+		if qs := x05Query(q); qs != "" {
+			u += "?" + qs
+		}
+		inm, star := "", false
+		switch r.Intn(10) {
+		case 4, 5, 6: // revalidate with everything stored for this URL
+			var have []string
+			for s := range store[u] {
+				have = append(have, s)
+			}
+			sort.Strings(have)
+			for j := range have {
+				if r.Intn(3) == 0 {
+					have[j] = x05Weaken(have[j])
+				}
+			}
+			if r.Intn(4) == 0 {
+				have = append([]string{`"x05-a"`}, have...)
+			}
+			inm = strings.Join(have, x05Pick(r, ", ", ",", " , "))
+		case 7:
+			inm, star = "*", true
+		case 8:
+			inm = x05Pick(r, `"x05-a", W/"x05-b"`, "x05-bare", `W/"x05-c"`)
+		case 9:
+			q2 := q
+			q2.Inm = x05Pick(r, "cid", "rawf", "dir", "dag", "cur", "curw", "list")
+			inm = e.renderInm(q2, it)
+		}
+		if star && (f == "" || f == "json" || f == "cbor") {
+			inm, star = "", false // not claimed, see StarUnclaimed
+		}
+		if inm != "" {
+			q.Inm = "hdr"
+		}
+		if r.Intn(7) == 0 {
+			q.Ims = x05Pick(r, "older", "equal", "newer", "junk")
+		}
+		ims := e.renderIms(q, it)
+		tags := []x05Et{}
+		if !star {
+			for _, part := range strings.Split(inm, ",") {
+				part = strings.TrimSpace(part)
+				if part == "" {
+					continue
+				}
+				if tg := e.parseEtag(part, true); tg.K != "other" && tg.K != "recbare" {
+					tags = append(tags, tg)
+				}
+			}
+		}
+		o := e.send(q, q.Meth, inm, ims, it)
+		if o.St == 200 && q.Meth == "GET" && o.H.Get("Etag") != "" {
+			if store[u] == nil {
+				store[u] = map[string]bool{}
+			}
+			store[u][o.H.Get("Etag")] = true
+		}
+		vEmit(M{"ev": "Req", "q": q, "tags": tags, "star": star, "o": e.project(q, o),
+			"sent": M{"url": u, "accept": x05Accept(q, it), "inm": inm, "ims": ims}})
+	}
+}
+
 func TestVerifX05(t *testing.T) {
 	defer vFlush()
 	switch vMode() {
@@ -971,6 +1295,8 @@ func TestVerifX05(t *testing.T) {
 		} else {
 			x05ReplayCases(t)
 		}
+	case "record":
+		x05Record(t)
 	default:
 		t.Skip("VERIF_MODE not set")
 	}
